@@ -2,7 +2,7 @@ SPECIFICATION Spec
 CONSTANTS
   B = 256
   Pts <- PtsDef
-  MaxOps = 7
+  MaxOps = 6
   QX = {0, 100, 128, 250}
   QY = {0, 64, 130, 256}
   KS = {1, 2, 3}
